@@ -151,6 +151,13 @@ func (g *progGen) e(d int) string {
 		}
 		body := g.withLocal(n1, func() string { return g.withLocal(n2, func() string { return g.body(d + 1) }) })
 		if n1 == n2 {
+			if g.r.Chance(0.4) {
+				// one name bound twice (and once more behind another name)
+				if g.r.Chance(0.5) {
+					return fmt.Sprintf("(%s [%s %s %s %s] %s)", kind, n1, v1, n2, v2, body)
+				}
+				return fmt.Sprintf("(%s [%s %s zq 5 %s %s] %s)", kind, n1, v1, n2, v2, body)
+			}
 			return fmt.Sprintf("(%s [%s %s] %s)", kind, n1, v1, body)
 		}
 		return fmt.Sprintf("(%s [%s %s %s %s] %s)", kind, n1, v1, n2, v2, body)
@@ -509,6 +516,8 @@ func (g *progGen) failingForm() string {
 		}
 		for _, gl := range g.globals {
 			cands = append(cands, fmt.Sprintf("(def %s %s)", gl, bad), fmt.Sprintf("(set %s %s)", gl, bad), fmt.Sprintf("(var %s nosuchtype)", gl))
+			// a destructuring definition whose source has the wrong shape: known before anything is bound
+			cands = append(cands, fmt.Sprintf("(mdef %s zz9 (list 1))", gl), fmt.Sprintf("(mdef zz9 %s zz8 (list 1 2))", gl), fmt.Sprintf("(mdef %s zz9 7)", gl), fmt.Sprintf("{%s, zz9 = 1}", gl), fmt.Sprintf("((fn [] (mdef %s zz9 (list 3))))", gl))
 		}
 		for _, h := range g.hashes {
 			cands = append(cands, fmt.Sprintf("(hset %s a: %s)", h, bad), fmt.Sprintf("(def %s (hash a: %s))", h, bad))
